@@ -915,4 +915,38 @@ theorem parseValue_intShow (X : Ext) (T : List Str) (i : Int) (hlo : -9223372036
     rw [trim_self hed, hb]
     simpa using key
 
+/-! ## string concatenation: a value text that starts and ends with a literal -/
+
+theorem maskedSegsAt_append (n : Nat) (xs ys : List Seg) :
+    maskedSegsAt n (xs ++ ys) = maskedSegsAt n xs ++ maskedSegsAt (n + (litsSegs xs).length) ys := by
+  induction xs generalizing n with
+  | nil => simp [maskedSegsAt, litsSegs]
+  | cons x xs ih =>
+    simp only [List.cons_append, maskedSegsAt, ih, litsSegs, List.flatMap_cons, List.length_append, List.append_assoc,
+      Nat.add_assoc]
+
+theorem mem_maskedSegsAt_of_code (n : Nat) (l : List Seg) (s : Str) (c : Char) (hs : Seg.code s ∈ l) (hc : c ∈ s) :
+    c ∈ maskedSegsAt n l := by
+  induction l generalizing n with
+  | nil => simp at hs
+  | cons x xs ih =>
+    simp only [maskedSegsAt, List.mem_append]
+    rcases List.mem_cons.mp hs with h | h
+    · left; subst h; exact hc
+    · right; exact ih _ h
+
+/-- the shape of the masked concatenation -/
+theorem concat_masked (q : Char) (b₁ b₂ : Str) (mid : List Seg) :
+    ∃ n, maskedSegsAt 0 (.lit q b₁ :: mid ++ [.lit q b₂]) =
+      q :: (maskBodyAt 0 b₁ ++ [q] ++ maskedSegsAt (0 + (Seg.lit q b₁).lits.length) mid ++ q :: maskBodyAt n b₂) ++ [q] := by
+  refine ⟨0 + (Seg.lit q b₁).lits.length + (litsSegs mid).length, ?_⟩
+  simp [maskedSegsAt, maskedSegsAt_append, Seg.maskedAt]
+
+
+theorem lower_head (s : Str) (c : Char) (r : Str) (h : s = c :: r) : (lower s).head? = some c.toLower := by
+  subst h; simp [lower]
+
+theorem parseI64_quote (q : Char) (r : Str) (hq : q = '"' ∨ q = '\'') : parseI64 (q :: r) = none := by
+  rcases hq with rfl | rfl <;> simp [parseI64, parseIntIn, signSplit, isDigit]
+
 end C04
